@@ -2,6 +2,7 @@ package harness
 
 import (
 	"bufio"
+	"bytes"
 	"context"
 	"errors"
 	"fmt"
@@ -118,6 +119,13 @@ func (t *tapDialer) DialContext(ctx context.Context, u string, hdr http.Header) 
 		cs.smu.Lock()
 		cs.clientStream.DialStatus = resp.StatusCode
 		cs.clientStream.DialHeader = map[string][]string(resp.Header.Clone())
+		if err != nil && resp.Body != nil {
+			// the upgrade was refused with an ordinary response: keep it like the tap does
+			rb, _ := io.ReadAll(resp.Body)
+			resp.Body.Close()
+			resp.Body = io.NopCloser(bytes.NewReader(rb))
+			cs.dialResp = &RawResp{Status: resp.StatusCode, Header: map[string][]string(resp.Header.Clone()), Body: rb}
+		}
 		cs.smu.Unlock()
 	}
 	return conn, resp, err
